@@ -765,10 +765,10 @@ class Builder:
         if isinstance(value, Future):
             # Register for checking branching based on condition
             reg = self._mem_mgr.get_inactive_register(activate=True)
-            # Load values
-            address_entry = value.get_address_entry()
-            load = ICmd(instruction=GenericInstr.LOAD, operands=[reg, address_entry])
-            return [load], reg
+            # Load values (through the Future itself, so that an index that is
+            # a Future is loaded first)
+            load_cmds = value.get_load_commands(reg)
+            return load_cmds, reg  # type: ignore
         elif isinstance(value, RegFuture):
             assert value.reg is not None
             return [], value.reg
